@@ -148,13 +148,15 @@ theorem accepted_points_valid_uncompressed (a : Bytes) (x y : Nat) (h : decodeG1
   · simp at h
   · split at h
     · simp at h
-    · simp at h
     · split at h
-      · next hc =>
-        simp only [Except.ok.injEq, G1Pt.aff.injEq] at h
-        obtain ⟨rfl, rfl⟩ := h
-        exact hc
       · simp at h
+      · simp at h
+      · split at h
+        · next hc =>
+          simp only [Except.ok.injEq, G1Pt.aff.injEq] at h
+          obtain ⟨rfl, rfl⟩ := h
+          exact hc
+        · simp at h
 
 /-- The same for G2 (`ParamsVerifierKZG`), compressed form. -/
 theorem accepted_points_valid_g2 (a : Bytes) (x y : Fp2) (h : decodeG2c a = .ok (.aff x y)) :
@@ -280,7 +282,7 @@ theorem vk_decode_consumed {Pt : Type} (dec : Bytes → Except Err Pt) (size : N
 key decoder accepts only the canonical encoding of the key it returns, followed by the bytes it
 hands back. -/
 theorem vk_decode_canonical {Pt : Type} (dec : Bytes → Except Err Pt) (enc : Pt → Bytes) (size : Nat)
-    (cs : CsShape) (hcan : ∀ a p, dec a = .ok p → enc p = a)
+    (cs : CsShape) (hcan : ∀ a p, WF a → dec a = .ok p → enc p = a)
     (bs rest : Bytes) (vk : VKey Pt) (hwf : WF bs) (h : decodeVKWith dec size cs bs = .ok (vk, rest)) :
     bs = encodeVKWith enc vk ++ rest := by
   have hcnt := vk_counts_match_cs dec size cs bs rest vk h
@@ -316,11 +318,13 @@ theorem vk_decode_canonical {Pt : Type} (dec : Bytes → Except Err Pt) (enc : P
                     have a0 := readN_ok h0
                     have a1 := readN_ok h1
                     have a2 := readN_ok h2
-                    have a3 := readPoints_canonical hcan hf
-                    have a4 := readPoints_canonical hcan hp
                     have w0 : WF v ∧ WF r0 := by rw [a0.1] at hwf; exact WF_append.mp hwf
                     have w1 : WF kb ∧ WF r1 := by rw [a1.1] at w0; exact WF_append.mp w0.2
                     have w2 : WF nb ∧ WF r2 := by rw [a2.1] at w1; exact WF_append.mp w1.2
+                    have a3 := readPoints_canonical hcan w2.2 hf
+                    have w3 : WF r3 := by
+                      rw [a3] at w2; exact (WF_append.mp w2.2).2
+                    have a4 := readPoints_canonical hcan w3 hp
                     -- single bytes
                     have hvb : v = [vkVersion] := by
                       match v, a0.2, hv with
@@ -582,63 +586,80 @@ example :
     (decodeG1c g).isOk = true ∧ (decodeG1c g').isOk = true ∧ decodeG1c g ≠ decodeG1c g' := by
   decide +kernel
 
-/-- `decode_canonical` for the RawBytes point format, PARTIAL: an accepted 96-byte string whose
-three flag bits are clear (the form `write` produces) is the canonical uncompressed encoding of its
-point. What is missing for the full statement is false for the code as it is: blst's
-`blst_p1_deserialize` also accepts a *compressed* encoding in the first 48 bytes and ignores the
-other 48 (see the example below), so RawBytes keys are byte-malleable. -/
-theorem decode_canonical_uncompressed_partial (a : Bytes) (x y : Nat) (hwf : WF a)
-    (hflags : a.headD 0 / 32 = 0) (h : decodeG1u a = .ok (.aff x y)) :
-    encodeG1u (.aff x y) = a := by
+/-- `decode_canonical` for the RawBytes point format — an accepted 96-byte string is the canonical
+uncompressed encoding of its point (coordinates, or the infinity byte `0x40` followed by zeros).
+At full strength since `from_uncompressed` rejects the compression bit (c6a63c4): before, blst's
+`blst_p1_deserialize` also took a *compressed* encoding from the first 48 bytes and ignored the
+rest, so RawBytes keys were byte-malleable. -/
+theorem decode_canonical_uncompressed (a : Bytes) (P : G1Pt) (hwf : WF a) (h : decodeG1u a = .ok P) :
+    encodeG1u P = a := by
   unfold decodeG1u at h
   split at h
   · simp at h
   · next hlen0 =>
     have hlen : a.length = 96 := by simpa using hlen0
     clear hlen0
-    have hP : deserializeG1 a = .ok (.aff x y) := by
-      split at h
-      · simp at h
-      · simp at h
-      · next x' y' hu =>
+    split at h
+    · simp at h
+    · next hcomp =>
+      have hP : deserializeG1 a = .ok P := by
         split at h
-        · simp only [Except.ok.injEq] at h; rw [← h]; exact hu
         · simp at h
-    clear h
-    unfold deserializeG1 at hP
-    split at hP
-    · simp at hP
-    · next b0 t =>
-      simp only [List.headD_cons] at hflags
-      rw [if_pos hflags] at hP
-      simp only at hP
+        · next hu => simp only [Except.ok.injEq] at h; rw [← h]; exact hu
+        · next x' y' hu =>
+          split at h
+          · simp only [Except.ok.injEq] at h; rw [← h]; exact hu
+          · simp at h
+      clear h
+      unfold deserializeG1 at hP
       split at hP
       · simp at hP
-      · split at hP
-        · simp at hP
-        · split at hP
+      · next b0 t =>
+        simp only [List.headD_cons] at hcomp
+        have hb0 : b0 < 256 := hwf b0 (by simp)
+        split at hP
+        · simp only at hP
+          split at hP
           · simp at hP
-          · simp only [Except.ok.injEq, G1Pt.aff.injEq] at hP
-            obtain ⟨rfl, rfl⟩ := hP
-            have w := (List.take_append_drop 48 (b0 :: t))
-            have wt : WF ((b0 :: t).take 48) := fun z hz => hwf z (List.mem_of_mem_take hz)
-            have wd : WF ((b0 :: t).drop 48) := fun z hz => hwf z (List.mem_of_mem_drop hz)
-            have lt : ((b0 :: t).take 48).length = 48 := by rw [List.length_take]; omega
-            have ld : ((b0 :: t).drop 48).length = 48 := by rw [List.length_drop]; omega
-            have e1 := natToBe_beToNat _ wt
-            have e2 := natToBe_beToNat _ wd
-            rw [lt] at e1
-            rw [ld] at e2
-            simp only [encodeG1u, e1, e2, w]
+          · split at hP
+            · simp at hP
+            · split at hP
+              · simp at hP
+              · simp only [Except.ok.injEq] at hP
+                subst hP
+                have w := (List.take_append_drop 48 (b0 :: t))
+                have wt : WF ((b0 :: t).take 48) := fun z hz => hwf z (List.mem_of_mem_take hz)
+                have wd : WF ((b0 :: t).drop 48) := fun z hz => hwf z (List.mem_of_mem_drop hz)
+                have lt : ((b0 :: t).take 48).length = 48 := by rw [List.length_take]; omega
+                have ld : ((b0 :: t).drop 48).length = 48 := by rw [List.length_drop]; omega
+                have e1 := natToBe_beToNat _ wt
+                have e2 := natToBe_beToNat _ wd
+                rw [lt] at e1
+                rw [ld] at e2
+                simp only [encodeG1u, e1, e2, w]
+        · split at hP
+          · next hi =>
+            split at hP
+            · next hz =>
+              simp only [Except.ok.injEq] at hP
+              subst hP
+              simp only [Bool.and_eq_true, decide_eq_true_eq] at hz
+              have e0 : b0 = 64 := by omega
+              have et := allZero_eq_replicate t hz.2
+              have htl : t.length = 95 := by simpa using hlen
+              rw [htl] at et
+              simp only [encodeG1u]
+              rw [e0, ← et]
+            · simp at hP
+          · simp at hP
 
-/-- The malleability of the RawBytes point format (what keeps `decode_canonical` partial there):
-the compressed generator followed by 48 arbitrary bytes is accepted in a 96-byte slot and decodes
-to the generator, whose canonical encoding is a different byte string. -/
+/-- Non-vacuity, and the regression of the malleability: the uncompressed generator is accepted;
+the compressed generator followed by 48 arbitrary bytes (accepted before c6a63c4) is rejected. -/
 example :
-    let a := natToBe 48 (2 ^ 383 + 0x17f1d3a73197d7942695638c4fa9ac0fc3688c4f9774b905a14e3a3f171bac586c55e83ff97a1aeffb3af00adb22c6bb) ++ List.replicate 48 0xaa
-    (match decodeG1u a with
-    | .ok P => encodeG1u P != a
-    | .error _ => false) = true := by
+    let gx := 0x17f1d3a73197d7942695638c4fa9ac0fc3688c4f9774b905a14e3a3f171bac586c55e83ff97a1aeffb3af00adb22c6bb
+    let gy := 0x08b3f481e3aaa0f1a09e30ed741d8ae4fcf5e095d5d00af600db18cb2c04b3edd03cc744a2888ae40caa232946c5e7e1
+    decodeG1u (natToBe 48 gx ++ natToBe 48 gy) = .ok (.aff gx gy) ∧
+    decodeG1u (natToBe 48 (2 ^ 383 + gx) ++ List.replicate 48 0xaa) = .error .point := by
   decide +kernel
 
 /-- `G2Affine::from_uncompressed` (RawBytes verifier parameters) does check the subgroup. -/
@@ -649,13 +670,24 @@ theorem accepted_points_valid_g2_uncompressed (a : Bytes) (x y : Fp2) (h : decod
   · simp at h
   · split at h
     · simp at h
-    · simp at h
     · split at h
-      · next hc =>
-        simp only [Except.ok.injEq, G2Pt.aff.injEq] at h
-        obtain ⟨rfl, rfl⟩ := h
-        simpa using hc
       · simp at h
+      · simp at h
+      · split at h
+        · next hc =>
+          simp only [Except.ok.injEq, G2Pt.aff.injEq] at h
+          obtain ⟨rfl, rfl⟩ := h
+          simpa using hc
+        · simp at h
+
+/-- `decode_canonical` for a whole RawBytes verifying key, with the real point decoder: the bytes
+`VerifyingKey::read_from_cs` accepts in the RawBytes format are exactly `VerifyingKey::write` of the
+key it returns (followed by what it leaves unread) — no byte of an accepted key is malleable. -/
+theorem vk_rawbytes_canonical (cs : CsShape) (bs rest : Bytes) (vk : VKey G1Pt) (hwf : WF bs)
+    (h : decodeVK .rawBytes cs bs = .ok (vk, rest)) :
+    bs = encodeVKWith (encodeG1 .rawBytes) vk ++ rest :=
+  vk_decode_canonical (decodeG1 .rawBytes) (encodeG1 .rawBytes) _ cs
+    (fun a p w hd => decode_canonical_uncompressed a p w hd) bs rest vk hwf h
 
 /-! ## MidnightVK -/
 
